@@ -143,6 +143,53 @@ def upair0(rng, big=False):
     return uplanted(rng, big)
 
 
+def ueval(p, x):
+    r = 0
+    for c in reversed(p):
+        r = r * x + c
+    return r
+
+
+def ucontent(p):
+    from math import gcd
+    g = 0
+    for c in p:
+        g = gcd(g, abs(c))
+    return g
+
+
+def utrap(rng):
+    """Pairs on which the FIRST heuristic candidate divides one operand but not the other, so that each of the
+    two trial divisions of upolynomial_gcd_heuristic is the one that rejects it: small primitive S, and T adjusted
+    so that T(2^n) is a multiple of S(2^n) at the first evaluation point 2^n although gcd(S, T) = 1 (in general)."""
+    while True:
+        ds = rng.randint(1, 3)
+        S = [rng.randint(-3, 3) for _ in range(ds)] + [rng.choice([1, -1, 2, 3, -3])]
+        if ucontent(S) != 1:
+            continue
+        n = max(abs(c).bit_length() for c in S if c) + 2
+        v = abs(ueval(S, 2 ** n))
+        if v < 2:
+            continue
+        if rng.random() < 0.5:
+            dt = rng.randint(ds, ds + 2)      # T is the larger-degree operand: candidate | S (= B), not | T (= A)
+        else:
+            dt = rng.randint(max(0, ds - 2), ds)  # T is the smaller-degree operand with large coefficients
+        T = [rng.randint(-3, 3) for _ in range(dt)] + [rng.choice([1, -1, 2, 5])]
+        T[0] -= ueval(T, 2 ** n) % v
+        if rng.random() < 0.5 and len(T) > 1:
+            T[0] += v * rng.choice([1, -1, 2])
+            T[1] += v * rng.choice([0, 1, -3])
+            T[0] -= ueval(T, 2 ** n) % v
+        T = utrim(T)
+        if not T or ucontent(T) != 1 or max(abs(c).bit_length() for c in T) < n - 2:
+            continue
+        if rng.random() < 0.3:                # with a planted common factor on top
+            g = upoly(rng, 2)
+            return umul(S, g), umul(T, g)
+        return S, T
+
+
 # ------------------------------------------------------------------ multivariate helpers (dict: exponent tuple -> coef)
 NV = 3
 
@@ -246,12 +293,27 @@ def mpair(rng):
         b = {tuple(e1): rng.choice([1, 2]), (0,) * NV: rng.choice([1, 3])}
         h = mpoly(rng, msubset(rng), 1, 2) or mconst(1)
         return mmul(a, h), mmul(b, h), h
-    if k < 0.36:
+    if k < 0.34:
+        # planted factor G = y^j * x^k + c: its leading coefficient in x vanishes at y = 0 and G(0, x) is a constant,
+        # so the specialised univariate gcd is 1 although the gcd is G; cofactors keep their degree at y = 0
+        v = rng.sample(range(NV), 2)
+        e1 = [0] * NV; e1[v[0]] = rng.randint(1, 2); e1[v[1]] = rng.randint(1, 2)
+        G = {tuple(e1): rng.choice([1, -1, 2]), (0,) * NV: rng.choice([1, -1, 3])}
+        if rng.random() < 0.3:
+            e2 = [0] * NV; e2[v[1]] = 1
+            G[tuple(e2)] = rng.choice([1, -2])
+        ex = [0] * NV; ex[v[0]] = 1
+        a = {tuple(ex): 1, (0,) * NV: rng.choice([1, 2, -1])}
+        b = {tuple(ex): rng.choice([1, 3]), (0,) * NV: rng.choice([2, 5, -3])}
+        if rng.random() < 0.4:
+            b = mmul(b, mpoly(rng, [v[0]], 2, 2) or mconst(1))
+        return mmul(G, a), mmul(G, b), G
+    if k < 0.40:
         # univariate in one variable (shortcut is precise)
         v = [rng.randrange(NV)]
         a, b, g = mpoly(rng, v, 3, 4) or mconst(1), mpoly(rng, v, 3, 4) or mconst(2), mpoly(rng, v, 2, 3) or mconst(1)
         return mmul(a, g), mmul(b, g), g
-    if k < 0.42:
+    if k < 0.46:
         a, b = mpoly(rng, msubset(rng), 2, 4), mpoly(rng, msubset(rng), 2, 4)
         return a, b, mconst(1)
     return mplanted(rng)
@@ -261,7 +323,7 @@ ORDERS = [",".join(str(i) for i in p) for p in permutations(range(NV))]
 
 
 def generate(rng, tier):
-    n = 1 if tier == "quick" else 8
+    n = 2 if tier == "quick" else 16
     cases = []
     umodes = ["0", "1"] if HOOK else ["0"]
     mmodes = ["0", "1", "2", "3"] if HOOK else ["0"]
@@ -275,6 +337,14 @@ def generate(rng, tier):
             if len(a) < len(b):
                 a, b = b, a
             cases.append("ustrat %s %s" % (ustr(a), ustr(b)))
+    for _ in range(50 * n):
+        a, b = utrap(rng)
+        for m in umodes:
+            cases.append("ugcd 0 %s %s %s" % (m, ustr(a), ustr(b)))
+            cases.append("ugcd 0 %s %s %s" % (m, ustr(b), ustr(a)))
+        if len(a) < len(b):
+            a, b = b, a
+        cases.append("ustrat %s %s" % (ustr(a), ustr(b)))
     for _ in range(60 * n):
         a = upoly(rng, 6, big=rng.random() < 0.3)
         if rng.random() < 0.6:
@@ -377,3 +447,12 @@ def nontrivial(case):
 def explain(case, c_out, m_out):
     return ("case `%s`: the implementation printed `%s`; the model-side checkers / reference / faithful model answered `%s`"
             % (case, c_out, m_out))
+
+
+def extra_coverage(cases, couts, mouts):
+    """how often the heuristic gave up / was followed, from the `ustrat` lines"""
+    none = sum(1 for c, o in zip(cases, couts) if c.startswith("ustrat") and o and o.startswith("none"))
+    tot = sum(1 for c in cases if c.startswith("ustrat"))
+    hooked = sum(1 for c in cases if c.split()[0] in ("ugcd", "mgcd", "mlcm") and c.split()[2] != "0")
+    return {"heuristic_gave_up": none, "heuristic_direct_calls": tot, "hook_forced_strategy_cases": hooked,
+            "hook_enabled": HOOK}
